@@ -130,6 +130,9 @@ def run_check(prop, tier="quick", replay=None):
         print("CHECK-ERROR property=%s internal error in the analysis" % prop)
         return 2
 
+    if os.environ.get("RBV_LIST"):
+        for o in ctx.obs:
+            print("  [%s] %s | %s | %s | %s" % (o.verdict, o.key, o.loc, o.rule, o.detail[:200]))
     known = load_known()
     known_keys = {}
     for k in known.get("findings", []):
@@ -235,5 +238,7 @@ def main(argv):
     a = ap.parse_args(argv)
     if a.tier not in ("quick", "thorough"):
         a.tier = "quick"
+    if a.list:
+        os.environ["RBV_LIST"] = "1"
     rc = run_check(a.prop.upper(), a.tier, a.replay)
     sys.exit(rc)
